@@ -119,7 +119,7 @@ theorem run_append (xs ys : List (Spec.SSeq.Op Elem)) : ∀ (a : ArraySized) (m 
        ((a.run xs m).2.1.run ys (a.run xs m).2.2).2.1, ((a.run xs m).2.1.run ys (a.run xs m).2.2).2.2) := by
   induction xs with
   | nil => intro a m; simp [run]
-  | cons x xs ih => intro a m; simp only [List.cons_append, run]; rw [ih]; simp
+  | cons x xs ih => intro a m; simp only [List.cons_append, run]; rw [ih]
 
 /-- `ops₁ ++ [refused op] ++ ops₂` behaves like `ops₁ ++ ops₂`: after the prefix, a call that is
 refused (allocator or size limit) returns its error and leaves the physical state as it was, and the
@@ -133,6 +133,9 @@ theorem run_continue (ops1 ops2 : List (Spec.SSeq.Op Elem)) (op : Spec.SSeq.Op E
       (a.run ops1 m).1 ++ ((a.run ops1 m).2.1.step op (a.run ops1 m).2.2).1 :: ((a.run ops1 m).2.1.run ops2 m2).1 ∧
     (a.run (ops1 ++ op :: ops2) m).2.1 = ((a.run ops1 m).2.1.run ops2 m2).2.1 := by
   obtain ⟨_, _, i1, _, d1, _⟩ := run_refines ops1 a m h (fun o ho => hw o (List.mem_append_left _ ho))
+  rw [run_append]
+  dsimp only
+  simp only [run]
   generalize a.run ops1 m = r1 at *
   obtain ⟨o1, a1, m1⟩ := r1
   dsimp only at *
@@ -140,9 +143,6 @@ theorem run_continue (ops1 ops2 : List (Spec.SSeq.Op Elem)) (op : Spec.SSeq.Op E
   have hw2 : ∀ o ∈ ops2, OpWF a1.dataLen o := by intro o ho; rw [d1]; exact hw o (by simp [ho])
   obtain ⟨_, _, _, _, _, _, s7, _⟩ := step_refines a1 op m1 i1 hwop
   have hsame := s7 href
-  rw [run_append]
-  dsimp only
-  simp only [run]
   obtain ⟨q1, q2, _⟩ := run_indep ops2 a1 (a1.step op m1).2.2 m2 i1 hw2 hs.symm
   rw [hsame, q1, q2]
   exact ⟨rfl, rfl⟩
@@ -172,5 +172,241 @@ theorem sort_le_one (a : ArraySized) (sortFn : List Elem → List Elem) (h : a.I
   | [] => rw [hab] at hp; exact List.Perm.eq_nil hp
   | [x] => rw [hab] at hp; exact List.perm_singleton.1 hp
   | x :: y :: t => rw [hab] at hl; simp at hl; omega
+
+/-! ### re-allocations of n appends -/
+theorem alloc_nalloc (m : Mem) : m.alloc.2.nalloc = if m.alloc.1 then m.nalloc + 1 else m.nalloc := by
+  unfold Mem.alloc; split <;> simp
+theorem free_nalloc (m : Mem) : m.free.nalloc = m.nalloc := by unfold Mem.free; split <;> rfl
+theorem check_nalloc (m : Mem) (b : Bool) : (m.check b).nalloc = m.nalloc := by cases b <;> rfl
+
+/-- `expand_capacity` performs exactly one successful allocator call when it succeeds, none otherwise -/
+theorem expandCapacity_nalloc (a : ArraySized) (m : Mem) :
+    (a.expandCapacity m).2.2.nalloc = if (a.expandCapacity m).1 = .ok then m.nalloc + 1 else m.nalloc := by
+  unfold expandCapacity
+  by_cases hc : a.capacity = CC_MAX_ELEMENTS
+  · rw [if_pos hc]; simp
+  · rw [if_neg hc]
+    dsimp only
+    by_cases hl : a.nextCapacity > CC_MAX_ELEMENTS / a.dataLen
+    · rw [if_pos hl]; simp [check_nalloc]
+    · rw [if_neg hl]
+      have hq := alloc_nalloc (m.check (a.dataLen != 0))
+      cases hal : (m.check (a.dataLen != 0)).alloc.1
+      · rw [hal] at hq; simp [hq, check_nalloc]
+      · rw [hal] at hq; simp [hq, check_nalloc, free_nalloc]
+
+/-- what one `add` does to capacity, size and the allocation counter -/
+theorem add_cases (a : ArraySized) (e : Buf Nat) (m : Mem) (h : a.Inv) (he : e.length = a.dataLen) :
+    (a.add e m).2.1.Inv ∧ (a.add e m).2.1.grow = a.grow ∧ (a.add e m).2.1.dataLen = a.dataLen ∧
+    (((a.add e m).2.2.nalloc = m.nalloc ∧ (a.add e m).2.1.capacity = a.capacity ∧ (a.add e m).2.1.size ≤ a.size + 1) ∨
+     ((a.add e m).2.2.nalloc = m.nalloc + 1 ∧ a.size = a.capacity ∧ (a.add e m).2.1.capacity = a.nextCapacity ∧
+       (a.add e m).2.1.size = a.size + 1)) := by
+  have hsz := h.2.2.1
+  have hbase : (a.add e m).2.1.Inv ∧ (a.add e m).2.1.grow = a.grow ∧ (a.add e m).2.1.dataLen = a.dataLen ∧
+      ((a.add e m).1 = .ok → (a.add e m).2.1.size = a.size + 1) ∧ ((a.add e m).1 ≠ .ok → (a.add e m).2.1 = a) := by
+    rcases add_spec a e m h he with ⟨h1, h2, h3, h4, h5, _⟩ | ⟨h1, h2, _⟩
+    · refine ⟨h2, h5, h4, fun _ => ?_, fun hh => absurd h1 hh⟩
+      have := abs_length (a.add e m).2.1
+      rw [h3] at this; simp [abs_length] at this; omega
+    · refine ⟨by rw [h2]; exact h, by rw [h2], by rw [h2], fun hh => ?_, fun _ => h2⟩
+      rcases h1 with h1 | h1 <;> rw [h1] at hh <;> cases hh
+  obtain ⟨b1, b2, b3, b4, b5⟩ := hbase
+  refine ⟨b1, b2, b3, ?_⟩
+  have hcap : (a.add e m).2.1.capacity = (a.ensureRoom m).2.1.capacity ∧
+      (a.add e m).2.2.nalloc = (a.ensureRoom m).2.2.nalloc ∧ ((a.add e m).1 = .ok ↔ (a.ensureRoom m).1 = .ok) := by
+    rw [add_eq]
+    split
+    · rename_i hne; exact ⟨rfl, rfl, ⟨fun hh => hh, fun hh => hh⟩⟩
+    · rename_i hne
+      refine ⟨rfl, by simp [check_nalloc], ⟨fun _ => by simpa using hne, fun _ => rfl⟩⟩
+  obtain ⟨c1, c2, c3⟩ := hcap
+  by_cases hfull : a.size ≥ a.capacity
+  · have er : a.ensureRoom m = a.expandCapacity m := by unfold ensureRoom; rw [if_pos hfull]
+    rw [er] at c1 c2 c3
+    have hn := expandCapacity_nalloc a m
+    by_cases hok : (a.expandCapacity m).1 = .ok
+    · right
+      rw [if_pos hok] at hn
+      rcases expandCapacity_spec a m h with ⟨_, _, _, _, _, _, _, _, _, _, hnext⟩ | ⟨q, _⟩ | ⟨q, _⟩
+      · exact ⟨by rw [c2, hn], by omega, by rw [c1, hnext], b4 (c3.2 hok)⟩
+      · rw [q] at hok; cases hok
+      · rw [q] at hok; cases hok
+    · left
+      rw [if_neg hok] at hn
+      have hne : (a.add e m).1 ≠ .ok := fun hh => hok (c3.1 hh)
+      rw [b5 hne] at *
+      exact ⟨by rw [c2, hn], rfl, by omega⟩
+  · left
+    have er : a.ensureRoom m = (.ok, a, m) := by unfold ensureRoom; rw [if_neg hfull]
+    rw [er] at c1 c2 c3
+    exact ⟨c2, c1, by rw [b4 (c3.2 rfl)]; omega⟩
+
+theorem nextCapacity_doubling (a : ArraySized) (h : a.Inv) (hd : ∀ c, 2 * c ≤ a.grow c) :
+    2 * a.capacity ≤ a.nextCapacity := by
+  have := hd a.capacity
+  have := h.2.1
+  unfold nextCapacity
+  dsimp only
+  rw [if_neg (by omega)]
+  omega
+
+theorem addAll_doubling (xs : List (Buf Nat)) : ∀ (a : ArraySized) (m : Mem), a.Inv →
+    (∀ x ∈ xs, x.length = a.dataLen) → (∀ c, 2 * c ≤ a.grow c) →
+    (a.addAll xs m).1.Inv ∧ m.nalloc ≤ (a.addAll xs m).2.nalloc ∧
+    (1 ≤ (a.addAll xs m).2.nalloc - m.nalloc →
+      2 ^ ((a.addAll xs m).2.nalloc - m.nalloc - 1) * a.capacity ≤ a.size + xs.length - 1) := by
+  induction xs with
+  | nil => intro a m h _ _; exact ⟨h, Nat.le_refl _, fun hh => by simp [addAll] at hh⟩
+  | cons x xs ih =>
+    intro a m h hx hd
+    obtain ⟨i1, g1, d1, hc⟩ := add_cases a x m h (hx x (List.mem_cons_self ..))
+    have ih' := ih (a.add x m).2.1 (a.add x m).2.2 i1
+      (by intro y hy; rw [d1]; exact hx y (List.mem_cons_of_mem _ hy)) (by intro c; rw [g1]; exact hd c)
+    obtain ⟨j1, j2, j3⟩ := ih'
+    simp only [addAll, List.length_cons]
+    generalize (addAll (a.add x m).2.1 xs (a.add x m).2.2) = r at *
+    rcases hc with ⟨n1, n2, n3⟩ | ⟨n1, n2, n3, n4⟩
+    · rw [n1] at j2 j3
+      refine ⟨j1, j2, fun hk => ?_⟩
+      have := j3 hk
+      rw [n2] at this
+      omega
+    · rw [n1] at j2 j3
+      refine ⟨j1, by omega, fun _ => ?_⟩
+      have hdbl := nextCapacity_doubling a h hd
+      by_cases hk : 1 ≤ r.2.nalloc - (m.nalloc + 1)
+      · have h3 := j3 hk
+        rw [n3, n4] at h3
+        have e1 : r.2.nalloc - m.nalloc - 1 = (r.2.nalloc - (m.nalloc + 1) - 1) + 1 := by omega
+        rw [e1, Nat.pow_succ, Nat.mul_assoc]
+        have h4 : 2 ^ (r.2.nalloc - (m.nalloc + 1) - 1) * (2 * a.capacity) ≤
+            2 ^ (r.2.nalloc - (m.nalloc + 1) - 1) * a.nextCapacity := Nat.mul_le_mul_left _ hdbl
+        omega
+      · have e1 : r.2.nalloc - m.nalloc - 1 = 0 := by omega
+        rw [e1]; simp; omega
+
+/-- **logarithmic number of re-allocations**: with a growth function that at least doubles,
+appending any `n` elements (under any refusal schedule) performs at most `log2 (size + n) + 1`
+successful allocator calls -/
+theorem addAll_realloc_log (a : ArraySized) (xs : List (Buf Nat)) (m : Mem) (h : a.Inv)
+    (hx : ∀ x ∈ xs, x.length = a.dataLen) (hd : ∀ c, 2 * c ≤ a.grow c) :
+    (a.addAll xs m).2.nalloc - m.nalloc ≤ Nat.log2 (a.size + xs.length) + 1 := by
+  obtain ⟨_, _, d⟩ := addAll_doubling xs a m h hx hd
+  by_cases hk : 1 ≤ (a.addAll xs m).2.nalloc - m.nalloc
+  · have h3 := d hk
+    have hc := h.2.1
+    have h4 : 2 ^ ((a.addAll xs m).2.nalloc - m.nalloc - 1) ≤ a.size + xs.length := by
+      have : 2 ^ ((a.addAll xs m).2.nalloc - m.nalloc - 1) * 1 ≤
+          2 ^ ((a.addAll xs m).2.nalloc - m.nalloc - 1) * a.capacity := Nat.mul_le_mul_left _ hc
+      omega
+    have hne : a.size + xs.length ≠ 0 := by
+      have : 0 < 2 ^ ((a.addAll xs m).2.nalloc - m.nalloc - 1) := Nat.pow_pos (by omega)
+      omega
+    have := (Nat.le_log2 hne).mpr h4
+    omega
+  · omega
+
+/-! ### iterator programs -/
+/-- documented precondition of an iterator call: element arguments have `data_length` bytes -/
+def IterCmdWF (dl : Nat) : Spec.SSeq.IterCmd Elem → Prop
+  | .add x | .replace x => x.length = dl
+  | _ => True
+
+theorem iterRefusal_none (it : Iter) (a : ArraySized) (cmd : Spec.SSeq.IterCmd Elem) (m : Mem)
+    (h1 : (iterStep it a cmd m).1.st ≠ some .errAlloc) (h2 : (iterStep it a cmd m).1.st ≠ some .errMaxCapacity) :
+    iterRefusal it a cmd m = none := by
+  unfold iterRefusal
+  split
+  · rename_i hh; exact absurd hh h1
+  · rename_i hh; exact absurd hh h2
+  · rfl
+
+theorem cursor_next_st (c : Spec.SSeq.Cursor Elem) : c.next.1 ≠ .errAlloc ∧ c.next.1 ≠ .errMaxCapacity := by
+  unfold Spec.SSeq.Cursor.next; split <;> simp
+theorem cursor_remove_st (c : Spec.SSeq.Cursor Elem) : c.remove.1 ≠ .errAlloc ∧ c.remove.1 ≠ .errMaxCapacity := by
+  unfold Spec.SSeq.Cursor.remove; split
+  · simp
+  · split <;> simp
+theorem cursor_replace_st (c : Spec.SSeq.Cursor Elem) (x : Elem) :
+    (c.replace x).1 ≠ .errAlloc ∧ (c.replace x).1 ≠ .errMaxCapacity := by
+  unfold Spec.SSeq.Cursor.replace; split <;> simp
+
+/-- one iterator call refines one step of the ideal cursor -/
+theorem iterStep_refines (it : Iter) (a : ArraySized) (c : Spec.SSeq.Cursor Elem) (cmd : Spec.SSeq.IterCmd Elem)
+    (m : Mem) (h : a.Inv) (hw : IterCmdWF a.dataLen cmd) (hrel : IterRel it a c) :
+    (iterStep it a cmd m).1 = (c.step cmd (iterRefusal it a cmd m)).1 ∧
+    IterRel (iterStep it a cmd m).2.1 (iterStep it a cmd m).2.2.1 (c.step cmd (iterRefusal it a cmd m)).2 ∧
+    (iterStep it a cmd m).2.2.1.Inv ∧ (iterStep it a cmd m).2.2.1.dataLen = a.dataLen ∧
+    MemSame m (iterStep it a cmd m).2.2.2 := by
+  cases cmd with
+  | next =>
+    obtain ⟨n1, n2, n3, n4⟩ := iterNext_refines it a c m h hrel
+    have hr : iterRefusal it a .next m = none := by
+      apply iterRefusal_none <;> simp only [iterStep, n1, ne_eq, Option.some.injEq]
+      · exact (cursor_next_st c).1
+      · exact (cursor_next_st c).2
+    rw [hr]
+    simp only [iterStep, Spec.SSeq.Cursor.step, n1, n2]
+    exact ⟨trivial, n3, h, trivial, by rw [n4]; exact MemSame.refl m⟩
+  | remove =>
+    obtain ⟨r1, r2, r3, r4, r5, r6, _⟩ := iterRemove_refines it a c m h hrel
+    have hr : iterRefusal it a .remove m = none := by
+      apply iterRefusal_none <;> simp only [iterStep, r1, ne_eq, Option.some.injEq]
+      · exact (cursor_remove_st c).1
+      · exact (cursor_remove_st c).2
+    rw [hr]
+    simp only [iterStep, Spec.SSeq.Cursor.step, r1, r2]
+    exact ⟨trivial, r3, r4, r6, by rw [r5]; exact MemSame.refl m⟩
+  | add x =>
+    rcases iterAdd_refines it a c x m h hw hrel with ⟨a1, a2, a3, a4, _, a6⟩ | ⟨a1, a2, a3, a4⟩
+    · have hr : iterRefusal it a (.add x) m = none := by
+        unfold iterRefusal; simp only [iterStep]; rw [a1]
+      rw [hr]
+      simp only [iterStep, Spec.SSeq.Cursor.step, a1]
+      exact ⟨trivial, a2, a3, a4, a6⟩
+    · rcases a1 with a1 | a1
+      · have hr : iterRefusal it a (.add x) m = some .errAlloc := by
+          unfold iterRefusal; simp only [iterStep]; rw [a1]
+        rw [hr]
+        simp only [iterStep, Spec.SSeq.Cursor.step, a1, a2, a3]
+        exact ⟨trivial, hrel, h, trivial, a4⟩
+      · have hr : iterRefusal it a (.add x) m = some .errMaxCapacity := by
+          unfold iterRefusal; simp only [iterStep]; rw [a1]
+        rw [hr]
+        simp only [iterStep, Spec.SSeq.Cursor.step, a1, a2, a3]
+        exact ⟨trivial, hrel, h, trivial, a4⟩
+  | replace x =>
+    obtain ⟨p1, p2, p3, p4, p5, p6, _⟩ := iterReplace_refines it a c x m h hw hrel
+    have hr : iterRefusal it a (.replace x) m = none := by
+      apply iterRefusal_none <;> simp only [iterStep, p1, ne_eq, Option.some.injEq]
+      · exact (cursor_replace_st c x).1
+      · exact (cursor_replace_st c x).2
+    rw [hr]
+    simp only [iterStep, Spec.SSeq.Cursor.step, p1, p2]
+    exact ⟨trivial, p3, p4, p6, by rw [p5]; exact MemSame.refl m⟩
+  | index =>
+    have hr : iterRefusal it a .index m = none := rfl
+    rw [hr]
+    simp only [iterStep, Spec.SSeq.Cursor.step, iterIndex_refines it a c hrel]
+    exact ⟨trivial, hrel, h, trivial, MemSame.refl m⟩
+
+/-- **iterator programs**: any program of `next`/`remove`/`add`/`replace`/`index` calls on the model
+yields the statuses, out-values and indices of the same program on the ideal cursor (given the
+same refusals of `add`), and ends representing the ideal cursor's final state -/
+theorem iterRun_refines (cmds : List (Spec.SSeq.IterCmd Elem)) :
+    ∀ (it : Iter) (a : ArraySized) (c : Spec.SSeq.Cursor Elem) (m : Mem), a.Inv →
+      (∀ cmd ∈ cmds, IterCmdWF a.dataLen cmd) → IterRel it a c →
+      (iterRun it a cmds m).1 = (c.run cmds (iterRefusals it a cmds m)).1 ∧
+      IterRel (iterRun it a cmds m).2.1 (iterRun it a cmds m).2.2.1 (c.run cmds (iterRefusals it a cmds m)).2 ∧
+      (iterRun it a cmds m).2.2.1.Inv ∧ MemSame m (iterRun it a cmds m).2.2.2 := by
+  induction cmds with
+  | nil => intro it a c m h _ hrel; exact ⟨rfl, hrel, h, MemSame.refl m⟩
+  | cons cmd cmds ih =>
+    intro it a c m h hw hrel
+    obtain ⟨s1, s2, s3, s4, s5⟩ := iterStep_refines it a c cmd m h (hw cmd (List.mem_cons_self ..)) hrel
+    have ih' := ih (iterStep it a cmd m).2.1 (iterStep it a cmd m).2.2.1 _ (iterStep it a cmd m).2.2.2 s3
+      (by intro o ho; rw [s4]; exact hw o (List.mem_cons_of_mem _ ho)) s2
+    simp only [iterRun, iterRefusals, Spec.SSeq.Cursor.run, List.headD_cons, List.tail_cons]
+    exact ⟨by rw [s1, ih'.1], ih'.2.1, ih'.2.2.1, MemSame.trans s5 ih'.2.2.2⟩
 
 end CC.ArraySized
